@@ -171,8 +171,15 @@ MENU = tuple(
 )
 
 
-def _mk_root(EoReader, data, s):
+def _mk_root(EoReader, data, s, variant=None):
     _, pre, post = SENTINELS[s]
+    if variant == "released_view":
+        # the caller hands in a memoryview window of its receive buffer and releases its own view afterwards
+        # (`with memoryview(buf)[a:b] as w: reader = EoReader(w)`): the reader goes on reading the same bytes
+        w = memoryview(pre + data + post)[PAD:PAD + len(data)]
+        r = EoReader(w)
+        w.release()
+        return r
     return EoReader(pre + data + post).slice(PAD, len(data))
 
 
@@ -294,12 +301,40 @@ def _check_content(case, where, x, m, sname):
         raise Violation("slice_content", case, "bytes:" + m.data.hex(), _show(got), f"{where} sentinel={sname}")
 
 
-def run_history(EoReader, data, ops, info=None):
+def app_reader_factories(EoReader):
+    """Application readers derived from the library's (the documented extension point of a plain class): one
+    un-masks its payload when it is constructed, one needs an extra constructor argument. A slice of either is
+    "an independent reader over exactly the requested clipped sub-range" - of the bytes the reader holds, not
+    of bytes passed through the application's constructor a second time."""
+    class KeyedReader(EoReader):
+        def __init__(self, data=b"", key=0x5A):
+            super().__init__(bytes(b ^ key for b in bytes(data)))
+            self.key = key
+
+    class SessionReader(EoReader):
+        def __init__(self, session, data):
+            super().__init__(data)
+            self.session = session
+
+    return {"keyed_subclass": lambda buf: KeyedReader(bytes(b ^ 0x5A for b in buf)),
+            "session_subclass": lambda buf: SessionReader("session", buf)}
+
+
+def run_history(EoReader, data, ops, info=None, make=None, variant=None):
     """Runs `ops` on a model pool and on one real pool per sentinel pattern; compares after every
-    op. Raises Violation. `info` (dict) receives generator statistics."""
+    op. Raises Violation. `info` (dict) receives generator statistics. `make` (default: the class itself)
+    constructs the outermost reader, e.g. an application subclass."""
     case = {"data": data.hex(), "ops": [list(o) for o in ops]}
+    if variant:
+        case["reader"] = variant
     model = [RefReader(data)]
-    pools = [[_mk_root(EoReader, data, s)] for s in range(len(SENTINELS))]
+    try:
+        pools = [[_mk_root(make or EoReader, data, s, variant)] for s in range(len(SENTINELS))]
+    except Exception as e:
+        if not variant:
+            raise
+        raise Violation("slice_is_independent_reader_over_the_subrange:construction", case,
+                        "a reader over exactly the given bytes", f"{type(e).__name__}: {e}", f"reader variant {variant}")
 
     def direct(s, kind, exp, got, where):
         # a disagreement that appears only under the second sentinel pattern means the reader
@@ -672,6 +707,13 @@ def run_task(task):
                 r = subprocess.run([sys.executable, "-B", flag, "-c", code], capture_output=True, text=True,
                                    env=dict(os.environ, VERIF_REPO=REPO, PYTHONHASHSEED="0"))
                 if r.returncode != 0:
+                    from vlib import optrun
+                    if optrun.library_fault(r.stderr):
+                        case0 = next(iter(opt_cases()))
+                        res.violations.append(Violation("under_optimized_interpreter:library_unusable",
+                                                        dict(case0, pyflag=flag), "readers that follow the model",
+                                                        optrun.fault_line(r.stderr)).to_json())
+                        break
                     raise RuntimeError(f"python {flag} helper failed: {r.stderr[-1200:]}")
                 out = json.loads(r.stdout.strip().splitlines()[-1])
                 res.extra["optimized_interpreter_histories"] = res.extra.get("optimized_interpreter_histories", 0) + out["n"]
@@ -723,11 +765,21 @@ def run_task(task):
                 if info.get("flags") == 7:
                     res.nontrivial(["long", len(case["data"]) // 2, case["data"][:2], case["ops"]])
         else:
+            import zlib
+            app = app_reader_factories(EoReader)
+
             def oracle(case):
                 res.evaluations += 1
                 info = {}
                 data = bytes.fromhex(case["data"])
                 run_history(EoReader, data, case["ops"], info)
+                sel = zlib.crc32(data) % 8
+                if sel < 3:
+                    # the same history through an application subclass of the reader, or over a memoryview the
+                    # caller has released meanwhile (digest-derived side input)
+                    variant = ("keyed_subclass", "session_subclass", "released_view")[sel]
+                    run_history(EoReader, data, case["ops"], {}, make=app.get(variant), variant=variant)
+                    res.labels["hyp:histories_through_" + variant] += 1
                 res.labels["hyp:histories"] += 1
                 res.labels["hyp:ops"] += len(case["ops"])
                 res.labels["hyp:expected_exceptions"] += info["exceptions"]
@@ -842,4 +894,6 @@ def finalize(merged, tier):
 
 def replay(case):
     c = loader.core()
-    run_history(c.data.EoReader, bytes.fromhex(case["data"]), [list(o) for o in case["ops"]])
+    variant = case.get("reader")
+    make = app_reader_factories(c.data.EoReader).get(variant) if variant else None
+    run_history(c.data.EoReader, bytes.fromhex(case["data"]), [list(o) for o in case["ops"]], make=make, variant=variant)
